@@ -17,8 +17,9 @@ from .paths import all_sites, local_defs, always_exits, has_break, ASSIGN_OPS
 
 
 def naming(fn, program=None):
-    """Substitution making atoms independent of local names: single-definition locals -> their
-    initialiser; range-for variables -> each(<range>); other locals -> var<type=init>."""
+    """Substitution making atoms independent of most local names: single-definition locals -> their
+    initialiser; range-for variables -> each(<range>); structured bindings -> bindN(<init>);
+    locals that are written after their declaration keep their own name."""
     subst = dict(local_defs(fn, program))
     for st in stmts(fn.body):
         if st.get("k") == "foreach" and isinstance(st.get("var"), dict):
@@ -29,14 +30,9 @@ def naming(fn, program=None):
                     subst[b] = ["bind%d" % i, each]
             if v.get("n"):
                 subst[v["n"]] = each
-        if st.get("k") == "decl" and st.get("n") and st["n"] not in subst:
-            if st.get("binds"):
-                for i, b in enumerate(st["binds"]):
-                    if is_expr(st.get("i")):
-                        subst[b] = ["bind%d" % i, st["i"]]
-                continue
-            init = st.get("i")
-            subst[st["n"]] = ["var", st.get("ty", "?"), show(init) if is_expr(init) else ""]
+        if st.get("k") == "decl" and st.get("binds") and is_expr(st.get("i")):
+            for i, b in enumerate(st["binds"]):
+                subst[b] = ["bind%d" % i, st["i"]]
     return subst
 
 
